@@ -42,7 +42,7 @@ SCENARIOS = {
     # a store that already holds results of other functions; the fault hits the write of a new value
     "populated": dict(prep=[["h_other", 1], ["g_same", 2], ["p_part", 3]], target=["f_scalar", 1],
                       matrix=[["f_scalar", 1], ["h_other", 1], ["g_same", 2], ["p_part", 3], ["f_scalar", 1], ["h_other", 1], ["g_same", 2],
-                              ["p_part", 3], ["f_scalar", 2], ["f_scalar", 2]], model=False),
+                              ["p_part", 3], ["f_scalar", 2], ["f_scalar", 2]]),
     # a partition merged on top of the partition returned by a nested memento call (both written during the faulted call)
     "merged-partition": dict(prep=[], target=["p_b", 1],
                              matrix=[["p_b", 1], ["p_b", 1], ["p_a", 1], ["p_a", 1], ["p_b", 1]], model=False),
